@@ -619,18 +619,60 @@ InvB(ty, x) == RecipB(ty, x)
 \* (before the repair "fix: sph_j0/sph_j1/sph_j2 ..." the code tested re() < epsilon; TLC
 \*  reported every negative sample point of Towers.tla as a counterexample)
 SphSmall(x) == FLt(FAbs(ReB(x)), FEps)
+\* small-argument branches (since the repair "fix: small-argument series of sph_j0/..."):
+\*   1 - z/6 + z*z/120 ,  x/3 - x*x*x/30 ,  z/15 - z*z/210     with z = x*x
+\* (before, only the first non-constant term: Special.tla reported the third-order part of
+\*  sph_j1 and the fourth-order parts of all three at 0)
 SphJ0B(ty, x) ==
-    IF SphSmall(x) THEN SubB(ty, OneB(ty), DivFB(ty, MulB(ty, x, x), QInt(6)))
+    IF SphSmall(x)
+    THEN LET z == MulB(ty, x, x)
+         IN  AddB(ty, SubB(ty, OneB(ty), DivFB(ty, z, QInt(6))), DivFB(ty, MulB(ty, z, z), QInt(120)))
     ELSE DivB(ty, ElemB(ty, "sin", x), x)
 SphJ1B(ty, x) ==
-    IF SphSmall(x) THEN DivFB(ty, x, QInt(3))
+    IF SphSmall(x)
+    THEN SubB(ty, DivFB(ty, x, QInt(3)), DivFB(ty, MulB(ty, MulB(ty, x, x), x), QInt(30)))
     ELSE LET sc == SinCosB(ty, x)
          IN  DivB(ty, SubB(ty, sc[1], MulB(ty, x, sc[2])), MulB(ty, x, x))
 SphJ2B(ty, x) ==
-    IF SphSmall(x) THEN DivFB(ty, MulB(ty, x, x), QInt(15))
+    IF SphSmall(x)
+    THEN LET z == MulB(ty, x, x)
+         IN  SubB(ty, DivFB(ty, z, QInt(15)), DivFB(ty, MulB(ty, z, z), QInt(210)))
     ELSE LET sc == SinCosB(ty, x)
              s2 == MulB(ty, x, x)
          IN  DivB(ty, SubB(ty, MulFB(ty, SubB(ty, sc[1], MulB(ty, x, sc[2])), QInt(3)),
                            MulB(ty, s2, sc[1])),
                   MulB(ty, s2, x))
+
+---------------------------------------------------------------------------
+(* bessel.rs : trait BesselDual -- branch structure and the closed small-argument    *)
+(* branches (the rational / asymptotic branches evaluate float-coefficient           *)
+(* polynomials in dual arithmetic and are checked in float mode)                     *)
+\* bessel_j0: negate a negative argument, then  re <= 5 ? (re < 1e-5 ? series : rational)
+\*            : asymptotic.   bessel_j1: |x|.re <= 5 ? rational : asymptotic (odd through
+\*            signum).   bessel_j2: re == 0 ? series : recurrence 2 J1 / x - J0.
+\* argument classes are given by the caller as strings
+BesselJ0Branch(cls) ==
+    CASE cls \in {"zero", "tiny+", "tiny-"} -> "series"
+      [] cls \in {"small+", "small-", "five+", "five-"} -> "rational"
+      [] cls \in {"large+", "large-"} -> "asymptotic"
+BesselJ1Branch(cls) ==
+    IF cls \in {"large+", "large-"} THEN "asymptotic" ELSE "rational"
+\* (since "fix: bessel_j2 lost all accuracy ... near zero": |re| < 0.3 takes the series)
+BesselJ2Branch(cls) == IF cls \in {"zero", "tiny+", "tiny-", "below03+", "below03-"} THEN "series" ELSE "recurrence"
+\* one - z/4 + z*z/64    (z = x*x)   [before "fix: bessel_j0 lost its third ...": one - z/4]
+BesselJ0SeriesB(ty, x) ==
+    LET z == MulB(ty, x, x)
+    IN  AddB(ty, SubB(ty, OneB(ty), DivFB(ty, z, QInt(4))), DivFB(ty, MulB(ty, z, z), QInt(64)))
+\* z/8 * ((((((z/59454259200 - 1/309657600) z + 1/2211840) z - 1/23040) z + 1/384) z - 1/12) z + 1)
+\* with z = x*x.  The two leading Horner constants exceed TLC's 32-bit integers; they multiply
+\* x^12 and x^14 and therefore cannot influence any derivative of order < 12 at x = 0, which
+\* is all that Special.tla evaluates with this operator: the transcription starts at 1/2211840.
+\* [before the repairs: x*x/8 * (x*x/24 + 1), at re == 0 only]
+BesselJ2SeriesB(ty, x) ==
+    LET z  == MulB(ty, x, x)
+        h1 == SubFB(ty, DivFB(ty, z, QInt(2211840)), <<1, 23040>>)
+        h2 == AddFB(ty, MulB(ty, h1, z), <<1, 384>>)
+        h3 == SubFB(ty, MulB(ty, h2, z), <<1, 12>>)
+        h4 == AddFB(ty, MulB(ty, h3, z), Q1)
+    IN  MulB(ty, DivFB(ty, z, QInt(8)), h4)
 =============================================================================
